@@ -48,6 +48,66 @@ def describe(clause, row, rows, line):
     return key, what
 
 
+def gas_part(ctx, quick):
+    """Gas.tla: pool offer (static gas), proposer's filter (include, then test) and validator (one crossing transaction tolerated)
+    on every list over small weights; one list per relation pattern is realised with real transactions whose cumulative gas lands
+    on the real cap exactly where the model list lands on the model cap."""
+    import random
+    g = chainlib.model_run(ctx, "MC_Gas.tla", "MC_Gas.cfg")
+    by = {}
+    for e in sorted(g.exports, key=lambda x: json.dumps(x, sort_keys=True)):
+        by.setdefault(("".join(e["pat"]), "".join(e["spat"]), e["offered"], e["block"]), []).append(e)
+    rnd = random.Random(ctx.seed)
+    cases = []
+    for k in sorted(by):
+        rnd.shuffle(by[k])
+        cases += by[k][: (1 if quick else 10)]
+    if not any("=" in k[0] and k[3] > k[0].index("=") + 1 for k in by):
+        raise vlib.CheckError("Gas model exported no list that lands exactly on the cap and continues (vacuous bounds)")
+    cfile = ctx.path("gascases.json")
+    with open(cfile, "w") as f:
+        for c in cases:
+            f.write(json.dumps(c) + "\n")
+    drv = vlib.build_driver(ctx, "d_chain", clocks=chainlib.CLOCKS)
+    trace = ctx.path("gas.ndjson")
+    p = vlib.run_driver(ctx, drv, ["-out", trace, "-gas", cfile], timeout=3000)
+    if p.returncode != 0:
+        raise vlib.CheckError("driver failed on the gas-boundary scenarios:\n" + (p.stdout or "")[-2000:])
+    rows = vlib.read_ndjson(trace)
+
+    def describe_gas(clause, row, rows_, line):
+        bad = {k: v for k, v in row.get("verdicts", {}).items() if v != "ok"}
+        # the GasCase line that follows tells which boundary pattern the refused block realises
+        nxt = next((x for x in rows_[line:] if x.get("ev") == "GasCase" and x.get("hid") == row.get("hid")), {})
+        pat = "".join((nxt.get("case") or {}).get("pat") or [])
+        errs = sorted(set(bad.values()))
+        key = "ProposedAccepted:gas-boundary:%s:%s" % (pat, "|".join(e[:40] for e in errs))
+        what = ("gas-boundary scenario %s: the honest proposer's block for the list %s (cumulative totals vs the cap: %s; the pool offered "
+                "%s, the model's block takes %s) was refused by in-sync replica(s) %s" % (
+                    row.get("hid"), json.dumps((nxt.get("case") or {}).get("txs")), pat, (nxt.get("case") or {}).get("offered"),
+                    (nxt.get("case") or {}).get("block"), json.dumps(bad)))
+        return key, what
+    ok1, _ = chainlib.validate(ctx, trace, "Trace_Replicas.tla", "Trace_Replicas.cfg", MINE, "C02", describe_gas)
+    ok2, info = vlib.trace_validate(ctx, "Trace_Gas.tla", "Trace_Gas.cfg", trace, timeout=1200)
+    not_realised = [b for b in (info.get("broken") or []) if b[1] == "NotRealised"]
+    if not ok2 and not info.get("broken"):
+        raise vlib.CheckError("gas trace rejected without a clause: %s" % json.dumps(info)[:800])
+    if ok1 and not_realised:
+        # (when the block was refused the violation is already reported; a case that is not realised otherwise proves nothing)
+        raise vlib.CheckError("gas-boundary scenarios not realised on the real chain (dead scenario): %s"
+                              % json.dumps([rows[b[0] - 1] for b in not_realised[:2]])[:1500])
+    for line, clause in (info.get("broken") or []):
+        if clause == "ProposedAccepted" and ok1:
+            row = rows[line - 1]
+            vlib.report_violation(ctx, "C02:ProposedAccepted:gas-boundary-leftovers:%s" % "".join(row["case"]["pat"]),
+                                  "gas-boundary scenario %s: the block that takes the leftovers of list %s was refused" % (row.get("hid"), json.dumps(row["case"]["txs"])),
+                                  payload={"case": row["case"]})
+    n = sum(1 for x in rows if x.get("ev") == "GasCase")
+    ctx.log("gas boundary: %d model states, %d relation patterns, %d lists realised exactly on the real cap, drift %s"
+            % (g.distinct, len(by), n, info.get("drift")))
+    return {"gas_model_states": g.distinct, "gas_patterns": len(by), "gas_lists_realised": n, "gas_drift": info.get("drift")}
+
+
 def main(ctx):
     quick = ctx.tier == "quick"
     r, sched, samples = export_schedules(ctx, 8 if quick else 64)
@@ -74,13 +134,14 @@ def main(ctx):
     st_trace = ctx.path("selftest_src.ndjson")
     vlib.write_ndjson(st_trace, [x for x in rows if x.get("hid") != 900][:80])
     selftest_reject(ctx, "Trace_Replicas.tla", "Trace_Replicas.cfg", st_trace, mutate, n_lines=60)
+    gcov = gas_part(ctx, quick)
     cov = {"states": r.distinct, "transitions": r.generated,
-           "traces_validated_against_impl": stats.get("histories", 0),
+           "traces_validated_against_impl": stats.get("histories", 0), **gcov,
            "proposals": len(blocks), "txs_offered": offered, "txs_included": included, "tx_types_included": types_in,
            "samples": [{k: blocks[len(blocks) // 2].get(k) for k in ("h", "kind", "flags", "proposer", "verdicts", "hists")}],
            "rule": "every block produced by ProposeBlock / GenerateEmptyBlock on a real node from a seeded hostile mempool mix is "
                    "validated and inserted by 5 other real replicas reaching the same head through TLC-exported node-local history "
                    "shapes; included-tx counts per type are reported so that an always-empty block cannot pass vacuously"}
     return vlib.finish(ctx, "model_checking", cov, assumptions=[
-        "V12 consensus configuration; contract transactions are exercised by C15's driver",
+        "V12 consensus configuration; contract transactions appear only as embedded multisig deployments in the gas-boundary scenarios (C15 owns contracts)",
         "proposer eligibility as enforced on insertion (online identity, or god with no online identity)"])
